@@ -194,6 +194,13 @@ func (n *constructorNode) Call(c containerStore) (err error) {
 		return nil
 	}
 
+	// The constructor counts as running until its callback has returned: a
+	// callback that asks the container for this constructor's result must not
+	// get it re-entered (through a decorator) while this call is still in
+	// progress.
+	n.running = true
+	defer func() { n.running = false }()
+
 	if n.callback != nil {
 		start := c.clock().Now()
 		// Wrap in separate func to include PanicErrors
@@ -218,8 +225,6 @@ func (n *constructorNode) Call(c containerStore) (err error) {
 	}
 
 	receiver := newStagingContainerWriter()
-	n.running = true
-	defer func() { n.running = false }()
 	results := c.invoker()(reflect.ValueOf(n.ctor), args)
 	if err = n.resultList.ExtractList(receiver, false /* decorating */, results); err != nil {
 		return errConstructorFailed{Func: n.location, Reason: err}
